@@ -297,8 +297,11 @@ package keeper
 //@ assumed func (k Keeper) SignedBlocksWindow(ctx sdk.Ctx) (res int64)
 //@   mode value
 //@   ensures res == pp_window
-//@ assumed func (k Keeper) MinSignedPerWindow(ctx sdk.Ctx) (res int64)
+// verified: the configured fraction times the window, ROUNDED half-to-even to an integer (Dec.MulInt64 / RoundInt64 as
+// proved under C18); a truncating conversion makes the downtime threshold one block too lenient (seed C08g)
+//@ func (k Keeper) MinSignedPerWindow(ctx sdk.Ctx) (res int64)
 //@   mode value
+//@   props C08
 //@   ensures res == rhe(pp_minsigned_raw * pp_window, pow10(18))
 //@ assumed func (k Keeper) DowntimeJailDuration(ctx sdk.Ctx) (res time.Duration)
 //@   mode value
